@@ -63,6 +63,10 @@ fn resolve_escape_sequences_to_bytes(escaped: &str) -> Result<Vec<u8>> {
                     .ok_or_else(|| anyhow!("missing second character in escape sequence"))?,
             );
             let sequence: String = sequence.into_iter().collect();
+            // only digits: the number parser would also accept a sign
+            if !sequence.chars().all(|ch| ch.is_ascii_hexdigit()) {
+                bail!("invalid digits `{sequence}` in escape sequence");
+            }
             sequence
         }};
     }
